@@ -347,8 +347,13 @@ def profile_errors(rnd, tier):
             if c not in closed and rnd.random() < 0.4:
                 # an error is still pending when the channel is closed
                 steps.append((c, ('idle',), [g.returned(c, rnd.choice([312, 313]))]))
+            answered = rnd.random() < 0.8
             steps.append((c, ('close', 'with') if rnd.random() < 0.5 else ('close',),
-                          [[(c, F('NChCloseOk'))]] if rnd.random() < 0.8 else []))
+                          [[(c, F('NChCloseOk'))]] if answered else []))
+            if not answered and c not in closed and rnd.random() < 0.6:
+                # the broker's own Channel.Close for that channel crosses the application's (which
+                # was given up after its time-out): it still has to be answered
+                steps.append((c, ('idle',), [[(c, F('NChClose', rnd.choice([404, 406])))]]))
             closed.add(c)      # the broker says nothing more on a channel the application closed
         else:
             steps.append((c, ('consume', b'k'), [[(c, F('NConsumeOk', 0, b'k'))]]))
